@@ -80,6 +80,8 @@ package cli
 //@ func (ir *inputReader) getContents(offset *int64, line *int) (s string)
 //@   property C17
 //@   requires offset != nil ==> line != nil && offset != line
+// the error offset handed over lies inside the retained window
+//@   requires offset != nil && ir.buf != nil ==> 0 <= deref(offset) && deref(offset) <= len(out(ir.buf))
 //@   modifies cell(offset), cell(line)
 //@   loop 1 invariant offset != nil ==> deref(offset) <= old(deref(offset)) && (old(deref(offset)) >= 1 ==> deref(offset) >= 1)
 //@   ensures offset != nil && ir.buf == nil && old(deref(offset)) >= 1 ==> deref(offset) >= 1 && deref(offset) <= old(deref(offset))
@@ -177,3 +179,27 @@ package cli
 //@   loop 2 invariant e.w == old(e.w) && e.indent == old(e.indent) && e.tab == old(e.tab) && e.depth == wrap64(old(e.depth) + old(e.indent))
 //@   ensures e.w == old(e.w) && e.indent == old(e.indent) && e.tab == old(e.tab)
 //@   ensures err == nil ==> e.depth == old(e.depth)
+
+// C17: the read-ahead window of the JSON input iterator (non-seekable input). Ghost fields of the
+// iterator (state of the json.Decoder behind i.next that the code cannot observe): "read" = bytes the
+// reader has delivered so far, "cons" = offset up to which returned values have consumed them. The tee
+// buffer holds the bytes from i.offset on. Invariant: the window never starts after the consumption
+// point, so a later error - which lies at or after it, possibly in data read ahead - is inside the
+// window and the offset relative to the window is meaningful.
+//@ invariant-of (i *jsonInputIter) i.ir != nil && 0 <= i.offset && i.offset <= ghost(i, "cons") && ghost(i, "cons") <= ghost(i, "read") && ghost(i, "read") <= 1 << 62
+//@ invariant-of (i *jsonInputIter) i.ir.buf != nil ==> i.offset + len(out(i.ir.buf)) == ghost(i, "read")
+
+// ASSUMED behaviour of the decoder behind i.next (json.Decoder.Decode / the stream decoder): it only
+// reads forward (fewer than 2^62 bytes), a value it returns ends at the new consumption point, everything
+// it reads is teed into the buffer, and a syntax error lies at or after the previous consumption point
+// within what was read.
+//@ external field.jsonInputIter.next(i) (v, err)
+//@   modifies ghost(i, "read"), ghost(i, "cons"), out(i.ir.buf)
+//@   ensures ghost(i, "read") >= old(ghost(i, "read")) && ghost(i, "cons") >= old(ghost(i, "cons")) && ghost(i, "cons") <= ghost(i, "read") && ghost(i, "read") <= 1 << 62
+//@   ensures i.ir.buf != nil ==> len(out(i.ir.buf)) == old(len(out(i.ir.buf))) + ghost(i, "read") - old(ghost(i, "read"))
+//@   ensures (err is *json.SyntaxError) ==> err.(*json.SyntaxError) != nil && old(ghost(i, "cons")) <= err.(*json.SyntaxError).Offset && err.(*json.SyntaxError).Offset <= ghost(i, "read")
+
+//@ func (i *jsonInputIter) Next() (v any, ok bool)
+//@   property C17
+//@   requires i.ir.buf != nil || i.ir.rs != nil
+//@   modifies *
